@@ -343,12 +343,13 @@ type c01Log struct {
 	li     *logInfo
 	spki   []byte
 	first  map[string]uint64 // leaf DER -> timestamp of its first successful submission
+	firstE map[string][]byte // leaf DER -> signature input body (entry) of that first submission
 	name   string
 }
 
 func c01NewLog(out *verifkit.Out, key *vKey, roots []*vCert, name string) *c01Log {
 	l := &c01Log{out: out, signer: &c01Signer{Signer: key.priv}, clock: &c01Clock{}, be: &c01Backend{leaves: map[string]*trillian.LogLeaf{}},
-		first: map[string]uint64{}, name: name}
+		first: map[string]uint64{}, firstE: map[string][]byte{}, name: name}
 	fl := &verifkit.FuncLog{QueueLeafF: l.be.queue}
 	l.li = vLogInfo(fl, l.signer, l.clock, nil, func(_ *InstanceOptions, v *CertValidationOpts) {
 		for _, r := range roots {
@@ -498,6 +499,19 @@ func (l *c01Log) submit(chain, path []*vCert, pre bool, now time.Time, what stri
 		out.Fail(key, "sct_version is not v1(0)")
 	}
 	input := c01Leaf(rsp.Timestamp, entry, ext)
+	lk := string(path[0].der)
+	if fe, dup := l.firstE[lk]; dup && !bytes.Equal(fe, entry.signedEntry()) {
+		// The same leaf certificate was logged before through a different issuer (a Precertificate Signing
+		// Certificate certified by two CAs): de-duplication is by the leaf certificate alone, so the log repeats
+		// the first entry's SCT.  The property's de-duplication clause prescribes exactly that; counted, not failed
+		// (hypothesis `Consistent` of C01.sct_binds).  The SCT must then be the first entry's.
+		out.Count("obs:duplicate-leaf-different-issuer")
+		e1 := entry
+		if entry.precert {
+			e1.issuerKeyHash, e1.tbs = fe[:32], fe[35:]
+		}
+		input = c01Leaf(rsp.Timestamp, e1, ext)
+	}
 	if why := c01VerifySig(l.signer.Public(), input, ds); why != "" {
 		out.Fail(key, why)
 	}
@@ -523,7 +537,6 @@ func (l *c01Log) submit(chain, path []*vCert, pre bool, now time.Time, what stri
 	if !bytes.Equal(q.ExtraData, wantExtra) {
 		out.Fail(key, "ExtraData is not the validated chain (root included) in the RFC 6962 layout")
 	}
-	lk := string(path[0].der)
 	if t0, dup := l.first[lk]; dup {
 		out.Count("class:duplicate")
 		if rsp.Timestamp != t0 {
@@ -531,6 +544,7 @@ func (l *c01Log) submit(chain, path []*vCert, pre bool, now time.Time, what stri
 		}
 	} else {
 		l.first[lk] = nowMs
+		l.firstE[lk] = entry.signedEntry()
 		if rsp.Timestamp != nowMs {
 			out.Fail(key, fmt.Sprintf("first submission at %d got timestamp %d", nowMs, rsp.Timestamp))
 		}
@@ -566,6 +580,7 @@ var c01Clocks = []time.Time{
 	time.Unix(0, 0), time.Unix(0, 999999), time.Unix(0, 1000000), time.Date(2017, 9, 7, 12, 15, 23, 0, time.UTC),
 	time.Date(2017, 9, 7, 12, 15, 23, 999999999, time.UTC), time.Date(2038, 1, 19, 3, 14, 8, 0, time.UTC),
 	time.Date(2262, 4, 11, 23, 47, 16, 854775807, time.UTC), time.Unix(1<<32, 5000000), time.Unix(4102444800, 0),
+	time.Unix(0, -1), time.Unix(-1, 0), // before the epoch: the millisecond count wraps in uint64
 }
 
 func TestVerifC01(t *testing.T) {
@@ -573,8 +588,8 @@ func TestVerifC01(t *testing.T) {
 	defer out.Close()
 	r := verifkit.NewRand(verifkit.Seed())
 	keys := vKeys()
-	nWorlds := verifkit.N(5, 50)
-	perWorld := verifkit.N(14, 40)
+	nWorlds := verifkit.N(8, 60)
+	perWorld := verifkit.N(24, 40)
 	n := 0
 	for wi := 0; wi < nWorlds; wi++ {
 		w := vNewWorldOpt(r.Fork(), fmt.Sprintf("c01w%d", wi), true)
@@ -640,6 +655,28 @@ func TestVerifC01(t *testing.T) {
 				out.Sample(fmt.Sprintf("%s %s now=%v", lg.name, s.what, now.UTC()))
 			}
 			done = append(done, s)
+		}
+		// a Precertificate Signing Certificate that is itself a trust anchor: no final issuer in the path, no entry
+		{
+			pr := vIssue(vSpec{cn: fmt.Sprintf("c01w%d trusted preissuer", wi), key: keys[r.Intn(len(keys))], isCA: true, keyUsage: vCAUsage, ctEKU: true})
+			lg.li.validationOpts.trustedRoots.AddCert(pr.c)
+			p := vIssue(vSpec{cn: "c01 precert under trusted preissuer", key: keys[5], issuer: pr, keyUsage: stdx509.KeyUsageDigitalSignature, poison: vPoisonOK})
+			lg.submit([]*vCert{p}, []*vCert{p, pr}, true, c01Clocks[3], "precert directly under a trusted pre-issuer")
+			out.Count("mode:precert-no-final-issuer")
+		}
+		// one precertificate, two routes: the signing certificate's key is certified by two different CAs
+		if len(w.inters) >= 2 && w.inters[0].key != w.inters[1].key {
+			a, b := w.inters[0], w.inters[1]
+			pk := keys[6]
+			pia := vIssue(vSpec{cn: fmt.Sprintf("c01w%d shared preissuer", wi), key: pk, issuer: a, isCA: true, keyUsage: vCAUsage, ctEKU: true})
+			pib := vIssue(vSpec{rawSubj: pia.c.RawSubject, cn: "x", key: pk, issuer: b, isCA: true, keyUsage: vCAUsage, ctEKU: true, ski: pia.c.SubjectKeyId})
+			p := vIssue(vSpec{cn: "c01 precert with two routes", key: keys[7], issuer: pia, keyUsage: stdx509.KeyUsageDigitalSignature, poison: vPoisonOK})
+			p1 := vPath(p)
+			p2 := append([]*vCert{p, pib}, vPath(b)...)
+			lg.submit(p1[:len(p1)-1], p1, true, c01Clocks[3], "two-route precert via "+a.label)
+			lg.submit(p2[:len(p2)-1], p2, true, c01Clocks[5], "two-route precert via "+b.label)
+			lg.submit(p1, p1, true, c01Clocks[6], "two-route precert via "+a.label+" again")
+			out.Count("mode:two-route-precert")
 		}
 		// malformed backend replies (once per log, both endpoints)
 		for _, kind := range []string{"no-leaf", "no-queued-leaf", "nil-response", "garbage-leaf", "trailing-bytes"} {
